@@ -94,7 +94,15 @@ func (r *CopyOnWriteMap[K, V]) ComputeIf(k K, pred func(V) bool, f func() V) V {
 	}
 
 	nv := f()
+	stored := nv
 	r.copyOnWrite(func(om fp.UnsafeGoMap[K, V]) fp.UnsafeGoMap[K, V] {
+		// re-check under the lock: another goroutine may have stored a value
+		// between the unlocked read above and this critical section
+		if cur := om.Get(k).FilterNot(pred); cur.IsDefined() {
+			stored = cur.Get()
+			return om
+		}
+
 		nm := fp.UnsafeGoMap[K, V]{}
 
 		for k, v := range om {
@@ -105,7 +113,7 @@ func (r *CopyOnWriteMap[K, V]) ComputeIf(k K, pred func(V) bool, f func() V) V {
 		return nm
 	})
 
-	return r.Get(k).Get()
+	return stored
 }
 
 func (r *CopyOnWriteMap[K, V]) Updated(k K, v V) fp.MapBase[K, V] {
